@@ -4,6 +4,7 @@ import (
 	"fmt"
 	"reflect"
 	"sort"
+	"sync"
 
 	mod "github.com/craterdog/go-collection-framework/v4"
 	col "github.com/craterdog/go-collection-framework/v4/collection"
@@ -733,6 +734,47 @@ func buildProbes() []aliasProbe {
 		}
 		return ""
 	})
+	// Fork and Split return the sequence of their output queues while a helper goroutine of
+	// the library goes on using those queues: what the caller does to the returned sequence
+	// must not reach the helper
+	add("Queue.Fork+Split/mutate-returned-sequence", func(n int) string {
+		Q := col.Queue[int](Notation)
+		for _, shape := range []string{"Fork", "Split"} {
+			in := Q.MakeWithCapacity(uint(n + 2))
+			var wg sync.WaitGroup
+			var outs col.Sequential[col.QueueLike[int]]
+			if shape == "Fork" {
+				outs = Q.Fork(&wg, in, 2)
+			} else {
+				outs = Q.Split(&wg, in, 2)
+			}
+			orig := outs.AsArray()
+			spare := Q.MakeWithCapacity(uint(n + 2))
+			if l, ok := outs.(col.ListLike[col.QueueLike[int]]); ok {
+				l.SetValue(1, spare)
+				l.ReverseValues()
+			} else if u, ok := outs.(col.Updatable[col.QueueLike[int]]); ok {
+				u.SetValue(1, spare)
+			}
+			for i := 1; i <= n; i++ {
+				in.AddValue(i)
+			}
+			in.CloseQueue()
+			wg.Wait()
+			for k, o := range orig {
+				var want []int
+				for i := 1; i <= n; i++ {
+					if shape == "Fork" || (i-1)%2 == k {
+						want = append(want, i)
+					}
+				}
+				if got := o.AsArray(); fmt.Sprint(got) != fmt.Sprint(want) && !(len(got) == 0 && len(want) == 0) {
+					return fmt.Sprintf("%s: after the caller changed the returned sequence, output %d received %v instead of %v (the spare queue the caller put into the sequence holds %v)", shape, k+1, got, want, spare.AsArray())
+				}
+			}
+		}
+		return ""
+	})
 	return ps
 }
 
@@ -782,7 +824,7 @@ var c18known = map[string]string{
 	"AppendValues": "C18 (self operand) / C01", "AddValues": "C18 (self operand) / C02",
 	"ContainsAny": "read-only operand (C01/C02 check operand purity)", "ContainsAll": "read-only operand (C01/C02)",
 	"Concatenate": "C18 / C16", "Merge": "C18 / C16", "Extract": "C18 / C16", "And": "C15", "Or": "C15", "Sans": "C15", "Xor": "C15",
-	"Fork": "C06 (queues, not storage)", "Split": "C06", "Join": "C06",
+	"Fork": "C18 (returned sequence) / C06", "Split": "C18 (returned sequence) / C06", "Join": "C06",
 	"MakeWithCollator": "no storage", "GetIterator": "C17", "Make": "returns a fresh collection", "MakeWithCapacity": "returns a fresh collection",
 }
 
@@ -828,4 +870,19 @@ func C18Completeness() (unknown []string, inspected int) {
 	}
 	sort.Strings(unknown)
 	return
+}
+
+// ReproForkSequence: the sequence Fork returns is changed by the caller.
+func ReproForkSequence() (bool, string) {
+	for _, p := range c18probes {
+		if p.name == "Queue.Fork+Split/mutate-returned-sequence" {
+			for try := 0; try < 20; try++ {
+				if d := p.run(4); d != "" {
+					return true, d
+				}
+			}
+			return false, "changing the sequence returned by Fork / Split does not reach the helper goroutine"
+		}
+	}
+	return false, "probe not found"
 }
